@@ -996,14 +996,28 @@ def cases(rng, ctx):
     for cx in systematic_ctxs():
         for fl in (fills if thorough else [fills[1], fills[0], fills[5], fills[-2]]):
             out.append({'kind': 'unk', 'ctx': cx, 'fill': fl})
+    # spellings NEAR the documented names that are not documented themselves: the Python names of the implementing functions
+    # (ERROR_TYPE, VAR_P ...), dots as underscores and the reverse, a dot dropped, a dotted prefix or suffix alone
+    DOC = set(documented_names())
+    near = set()
+    try:
+        for f in hxm.formulas.dispatcher._registry_.values():
+            near.add(getattr(f, '__name__', ''))
+            near.add(getattr(getattr(f, '__wrapped__', None), '__name__', ''))
+    except Exception:
+        pass
+    for n in DOC:
+        near |= {n.replace('.', '_'), n.replace('.', ''), n.replace('_', '.'), n.split('.')[0] + '.X', n + '.S', n + '_'}
+    for name in sorted(x for x in near if x and x not in DOC and FN_RE.fullmatch(x)):
+        out.append({'kind': 'unk', 'ctx': ['HOLE'], 'fill': ['call', name, ',', [['n', '1'], ['n', '2']]]})
     maxd = 7 if thorough else 4
     for i in range(700 * mult):
         if rng.random() < 0.2:
             fl = ['v', gen_varname(rng) + '_u']
         else:
             name = rng.choice(SPECIAL_FNS[:-3]) + 'q' if rng.random() < 0.3 else gen_fname(rng, avoid=('ID', 'G', 'REACHED'))
-            if hxm.formulas.is_supported(name) or name in ('ID', 'G', 'REACHED'):
-                continue
+            if name in DOC or name in ('ID', 'G', 'REACHED'):
+                continue          # (judged against the DOCUMENTED list, not against what the implementation says it supports)
             n = rng.choice([0, 1, 1, 2, 3])
             fl = ['call', name, rng.choice(SEPS), gen_slots(rng, n, lambda: gen_safe(rng, 1))]
         out.append({'kind': 'unk', 'ctx': gen_ctx(rng, rng.randrange(0, maxd + 1)), 'fill': fl})
